@@ -225,7 +225,57 @@ func (fc *fnCtx) oblName(kind, anchor string) string {
 	return base
 }
 
+// splitAnd returns the top-level conjuncts of an SMT term.
+func splitAnd(t string) []string {
+	if !strings.HasPrefix(t, "(and ") {
+		return []string{t}
+	}
+	body := t[5 : len(t)-1]
+	var out []string
+	depth, start := 0, 0
+	inBar := false
+	for i := 0; i < len(body); i++ {
+		switch body[i] {
+		case '|':
+			inBar = !inBar
+		case '(':
+			if !inBar {
+				depth++
+			}
+		case ')':
+			if !inBar {
+				depth--
+			}
+		case ' ':
+			if depth == 0 && !inBar {
+				if i > start {
+					out = append(out, body[start:i])
+				}
+				start = i + 1
+			}
+		}
+	}
+	if start < len(body) {
+		out = append(out, body[start:])
+	}
+	var flat []string
+	for _, o := range out {
+		flat = append(flat, splitAnd(o)...)
+	}
+	return flat
+}
+
 func (fr *frame) oblige(st *state, kind, anchor string, pos token.Pos, cond string, desc string) {
+	if parts := splitAnd(cond); len(parts) > 1 && (kind == "post" || kind == "pre" || kind == "inv" || kind == "step") {
+		for i, p := range parts {
+			fr.oblige1(st, kind, fmt.Sprintf("%s/%d", anchor, i+1), pos, p, desc)
+		}
+		return
+	}
+	fr.oblige1(st, kind, anchor, pos, cond, desc)
+}
+
+func (fr *frame) oblige1(st *state, kind, anchor string, pos token.Pos, cond string, desc string) {
 	fc := fr.fc
 	if cond == "true" {
 		// trivially true conditions still count as (syntactically discharged) obligations
@@ -248,20 +298,19 @@ func (fr *frame) oblige(st *state, kind, anchor string, pos token.Pos, cond stri
 }
 
 // CoverQuery asks whether the obligation's program point is reachable under the assumptions.
-func (o *Obligation) CoverQuery(header string) string {
+func (o *Obligation) CoverQuery(u *Universe) string {
 	var sb strings.Builder
-	sb.WriteString(header)
 	for _, l := range o.script.lines[:o.Prefix] {
 		sb.WriteString(l)
 		sb.WriteString("\n")
 	}
 	fmt.Fprintf(&sb, "(assert %s)\n(check-sat)\n", o.Reach)
-	return sb.String()
+	body := sb.String()
+	return u.headerFor(body) + body
 }
 
-func (o *Obligation) Query(header string, wantModel bool) string {
+func (o *Obligation) Query(u *Universe, wantModel bool) string {
 	var sb strings.Builder
-	sb.WriteString(header)
 	for _, l := range o.script.lines[:o.Prefix] {
 		sb.WriteString(l)
 		sb.WriteString("\n")
@@ -270,7 +319,8 @@ func (o *Obligation) Query(header string, wantModel bool) string {
 	if wantModel {
 		sb.WriteString("(get-model)\n")
 	}
-	return sb.String()
+	body := sb.String()
+	return u.headerFor(body) + body
 }
 
 // ---------------------------------------------------------------------------
